@@ -1008,6 +1008,20 @@ def g6(ctx, F, D):
         inc_here = [i_ for i_ in incs if blk is not None and any(x is i_ for x, _ in hir.walk(blk))]
         if inc_here and min(hir.order_key(i_) for i_ in inc_here) < hir.order_key(w[3]):
             order_ok = False
+    # the filter looks at every generated move: its loop runs over the whole list (an index range from 0 to its length)
+    rng_ok = True
+    for n_, anc_ in hir.walk(body):
+        if n_.get("k") == "Match" and n_.get("src") == "ForLoopDesugar" and any(w[3] is x_ for w in writes for x_, _ in hir.walk(n_)):
+            it = sym(n_["e"])
+            if it[:1] == ("call",) and str(it[1]).endswith("IntoIterator::into_iter") and it[2]:
+                it = it[2][0]
+            if it[:1] == ("struct",) and str(it[1]).endswith("ops::Range"):
+                d_ = dict(it[2])
+                rng_ok = hir.sym_int(d_.get("start")) == 0 and "len(moves)" in fmtn(d_.get("end"), 60).replace("<T, CAP>::", "").replace("ArrayVec::", "")
+            elif it[:1] == ("call",) and str(it[1]).endswith("RangeInclusive::<Idx>::new"):
+                rng_ok = False
+    ctx.check("C01.G8", "filter:looks-at-every-generated-move", rng_ok, fn=FILTER, file=fn["file"],
+              what="the legality filter's loop does not run over the whole list of generated moves (from index 0 to its length)", found=rng_ok)
     ctx.check("C01.G8", "filter:stores-then-advances", order_ok, fn=FILTER, file=fn["file"],
               what="the keep index must advance after the kept move was stored at it", found=order_ok)
     ctx.check("C01.G8", "filter:truncates-to-the-kept-prefix", ok and len(incs) == len(writes) and len(writes) >= 1, fn=FILTER, file=fn["file"],
